@@ -1,2 +1,99 @@
-(** C01 placeholder *)
-From FF Require Import Pmm.Bitmap.
+(** C01 — physical frames are handed out exclusively and only from free RAM.
+    Statements only; every proof is [exact <lemma from Pmm/TopProofs.v>].
+
+    Model (Pmm/Bitmap.v): [pmm_init m kstart kend limit mapfail] is pmm.Init on fresh allocators for
+    memory map [m] and kernel image [kstart,kend) (the two seams fail as told by [limit]/[mapfail]);
+    [run a ops] is the history of AllocFrame / FreeFrame calls [ops] from allocator state [a].
+    [WFmap]/[WFkernel]: see Props/C02.v (sorted non-overlapping regions of any number, alignment, size and
+    type; page-aligned kernel start inside one available region).  [small_map]: fewer than 2^32-64 frames
+    of available RAM (the allocator's counters are uint32).
+    [early_frames obs]: the frames the early-boot allocator handed out during Init (seen at the mapFn seam).
+    [usable m kstart kend E f]: frame [f] lies wholly inside an available region, holds no byte of the
+    kernel image and is not one of the early-boot frames [E].
+    [history_ok]: the history never frees a frame of available RAM that was reserved at initialisation
+    (kernel image / early boot) — such a free is accepted by the code (known finding, [C03_refuted] in
+    Props/C03.v); frees of never-allocated, out-of-pool, twice-freed and arbitrary 64-bit frame numbers
+    are all inside the quantifier.
+    [exclusive U H trace]: walking the trace with the set [H] of frames currently held (handed out and not
+    yet successfully freed): every frame handed out satisfies [U] and is not in [H]; a successful free
+    removes exactly that frame from [H]; no call panics. *)
+From Coq Require Import NArith List Sorted.
+From FF Require Import Lib.Word Gen.Consts_mm_pmm Pmm.Boot Pmm.BootProofs Pmm.Bitmap Pmm.BitmapProofs Pmm.HistoryProofs
+  Pmm.InitProofs Pmm.TopProofs Props.C01_examples.
+Import ListNotations.
+Local Open Scope N_scope.
+
+(** For every well-formed map, kernel placement and seam behaviour: if Init succeeds then for EVERY history
+    every frame handed out is usable (wholly inside available RAM, not kernel image, not consumed by the
+    early-boot allocator) and not currently held by anybody; in particular a frame is handed out again
+    only after it has been freed. *)
+Theorem C01_alloc_exclusive :
+  forall (m : memmap) (kstart kend limit mapfail : N) (a0 : balloc) (b0 : bstate) (obs : init_obs) (ops : list op),
+    WFmap m -> WFkernel m kstart kend -> small_map m ->
+    pmm_init m kstart kend limit mapfail = (InitOk a0 b0, obs) ->
+    history_ok m kstart kend (early_frames obs) ops ->
+    exclusive (usable m kstart kend (early_frames obs)) [] (combine ops (map fst (run a0 ops))).
+Proof.
+  intros m kstart kend limit mapfail a0 b0 obs ops Hm Hk Hs Hi Ho.
+  exact (alloc_exclusive m kstart kend limit mapfail Hm Hk Hs a0 b0 obs Hi ops Ho).
+Qed.
+Print Assumptions C01_alloc_exclusive.
+
+(** The frames consumed by the early-boot allocator during Init are themselves wholly inside available
+    RAM, outside the kernel image and pairwise distinct (ascending) — C02 applied to Init. *)
+Theorem C01_early_frames_good :
+  forall (m : memmap) (kstart kend limit mapfail : N) (a0 : balloc) (b0 : bstate) (obs : init_obs),
+    WFmap m -> WFkernel m kstart kend -> small_map m ->
+    pmm_init m kstart kend limit mapfail = (InitOk a0 b0, obs) ->
+    Forall (good_frame m kstart kend) (early_frames obs) /\ StronglySorted N.lt (early_frames obs).
+Proof.
+  intros m kstart kend limit mapfail a0 b0 obs Hm Hk Hs Hi.
+  exact (proj2 (proj2 (proj2 (init_facts m kstart kend limit mapfail Hm Hk Hs a0 b0 obs Hi)))).
+Qed.
+Print Assumptions C01_early_frames_good.
+
+(** The representation invariant behind it (DESIGN.md Appendix A.1), for one call: from any state in which
+    every pool's bitmap agrees with a reservation predicate [R] and [freeCount] counts the clear in-range
+    bits, AllocFrame returns a managed frame that was not reserved — the LOWEST such frame — and the
+    invariant holds again with that frame reserved; it fails only when every managed frame is reserved. *)
+Theorem C01_alloc_step :
+  forall (R : N -> bool) (a : balloc),
+    Inv R a ->
+    match bitmap_alloc a with
+    | (a', Some f) =>
+        managed (a_pools a) f /\ R f = false /\ Inv (upd R f true) a' /\
+        ranges (a_pools a') = ranges (a_pools a) /\
+        a_total a' = a_total a /\ a_reserved a' = a_reserved a + 1 /\
+        (forall g, managed (a_pools a) g -> R g = false -> f <= g)
+    | (a', None) =>
+        a' = a /\ a_reserved a = a_total a /\ (forall g, managed (a_pools a) g -> R g = true)
+    end.
+Proof. exact bitmap_alloc_spec. Qed.
+Print Assumptions C01_alloc_step.
+
+(** The pools are exactly the whole frames of the available regions. *)
+Theorem C01_pools_are_available_ram :
+  forall (m : memmap) (kstart kend : N) (f : N),
+    WFmap m -> (in_ranges (pool_ranges m) f <-> frame_avail m f).
+Proof. intros m kstart kend f Hm. exact (in_ranges_avail m kstart kend Hm f). Qed.
+Print Assumptions C01_pools_are_available_ram.
+
+(** The letter of the property quantifies over every interleaving of allocate and free calls. Without the
+    restriction [history_ok] the statement is FALSE for the code as it is (known finding
+    c03:free-of-init-reserved-frame-accepted): FreeFrame accepts a frame reserved at initialisation and
+    AllocFrame then hands it out. Witness: the example map, history [FreeFrame(1); AllocFrame] where frame 1
+    is the early-boot frame: the free succeeds and the allocation returns frame 1. *)
+Definition C01_full_alloc_exclusive : Prop :=
+  forall (m : memmap) (kstart kend limit mapfail : N) (a0 : balloc) (b0 : bstate) (obs : init_obs) (ops : list op),
+    WFmap m -> WFkernel m kstart kend -> small_map m ->
+    pmm_init m kstart kend limit mapfail = (InitOk a0 b0, obs) ->
+    exclusive (usable m kstart kend (early_frames obs)) [] (combine ops (map fst (run a0 ops))).
+
+Theorem C01_full_alloc_exclusive_refuted : ~ C01_full_alloc_exclusive.
+Proof.
+  intros H.
+  specialize (H pm_map pm_kstart pm_kend two64 0 pm_a0 pm_b0 (snd pm_init_result) [OpFree 1; OpAlloc]
+                C01_map_nonvacuous C01_kernel_nonvacuous C01_small_nonvacuous (proj1 C01_init_nonvacuous)).
+  vm_compute in H. destruct H as [[] _].
+Qed.
+Print Assumptions C01_full_alloc_exclusive_refuted.
